@@ -97,8 +97,11 @@ impl LocalSpan {
     {
         #[cfg(feature = "enable")]
         if let Some(LocalSpanInner { stack, span_handle }) = &self.inner {
+            // Run the user closure before borrowing the span stack: it may call back into
+            // fastrace (a traced function, a fastrace-aware logger).
+            let properties = properties();
             let span_stack = &mut *stack.borrow_mut();
-            span_stack.with_properties(span_handle, properties);
+            span_stack.with_properties(span_handle, || properties);
         }
 
         self
@@ -150,8 +153,14 @@ impl LocalSpan {
         {
             LOCAL_SPAN_STACK
                 .try_with(|s| {
+                    // Run the user closure without holding the borrow of the span stack: it may
+                    // call back into fastrace. It still only runs if the properties are recorded.
+                    if !s.borrow_mut().is_recording() {
+                        return Some(());
+                    }
+                    let properties = properties();
                     let span_stack = &mut s.borrow_mut();
-                    span_stack.add_properties(properties);
+                    span_stack.add_properties(|| properties);
                     Some(())
                 })
                 .ok();
